@@ -79,3 +79,37 @@ Example lastfile_demo_summary :
   idents_of (wof lastfile_demo) 0 = [] /\ origins_list (wof lastfile_demo) 0 = [] /\
   option_map n_content (w_nodes (wof lastfile_demo) 0) = Some [].
 Proof. split; [apply script_invm; vm_compute; reflexivity|]. vm_compute. repeat split; reflexivity. Qed.
+
+(* ---------- finding class K04-move-container (C04-move-container-duplicates-paths): ELEMENTS (4) of /A, which holds /A/S (5), is
+   moved into /C, which already has the sub-package /C/S (10): the element 5 gets the path /C/S without any check and
+   takes over the index entry of the package. *)
+Definition mc_pre : list op :=
+  setup ++ [OpCreateNamed 1 nPKG (BS "A"); OpCreateSub 2 nELEMENTS; OpCreateNamed 4 nSYSTEM (BS "S");
+            OpCreateNamed 1 nPKG (BS "C"); OpCreateSub 7 nPKGS; OpCreateNamed 9 nPKG (BS "S")].
+Definition mc_op : op := OpMove 7 4.
+Example K04_move_container_refuted :
+  (TreeFacts (wof mc_pre) /\ Inv04 tiny tiny_check_fn (wof mc_pre) /\ Inv05 tiny (wof mc_pre)) /\
+  Known05 tiny tiny_el tiny_en tiny_check_fn LATEST [] (wof mc_pre) mc_op = true /\
+  (exists w', Tiny.run mc_op (wof mc_pre) = Val (OK (VElem 4), w')) /\
+  ~ Inv04 tiny tiny_check_fn (wof (mc_pre ++ [mc_op])).
+Proof.
+  split; [apply script_invm; vm_compute; reflexivity|].
+  split; [vm_compute; reflexivity|]. split; [eexists; vm_compute; reflexivity|].
+  intros HI. pose proof (i4_exact _ _ _ HI 0) as HE. unfold IndexExact in HE.
+  destruct (model_at (wof (mc_pre ++ [mc_op])) 0) as [x|] eqn:Hx; [|vm_compute in Hx; discriminate Hx].
+  specialize (HE x eq_refl (BS "/C/S") 10). vm_compute in Hx. injection Hx as <-.
+  set (W := wof (mc_pre ++ [mc_op])) in *.
+  assert (C01 : child_of W 0 1) by (eexists; split; [vm_compute; reflexivity|cbn; auto 10]).
+  assert (C17 : child_of W 1 7) by (eexists; split; [vm_compute; reflexivity|cbn; auto 10]).
+  assert (C79 : child_of W 7 9) by (eexists; split; [vm_compute; reflexivity|cbn; auto 10]).
+  assert (C9 : child_of W 9 10) by (eexists; split; [vm_compute; reflexivity|cbn; auto 10]).
+  assert (HS : SpecPath tiny W 0 10 (BS "/C/S")).
+  { eexists. split; [vm_compute; reflexivity|]. cbn [m_root].
+    exists (seg tiny W 1 ++ seg tiny W 7 ++ seg tiny W 9 ++ seg tiny W 10 ++ []).
+    split; [|vm_compute; reflexivity].
+    apply (IndexProofsTree.dpath_cons tiny W 0 1 10 _ C01). apply (IndexProofsTree.dpath_cons tiny W 1 7 10 _ C17).
+    apply (IndexProofsTree.dpath_cons tiny W 7 9 10 _ C79). apply (IndexProofsTree.dpath_cons tiny W 9 10 10 _ C9). constructor. }
+  assert (HP : PathSet tiny W 0 (BS "/C/S") 10).
+  { split; [eapply specpath_mreach; exact HS|]. split; [vm_compute; reflexivity|exact HS]. }
+  apply HE in HP. vm_compute in HP. discriminate HP.
+Qed.
